@@ -129,7 +129,8 @@ def gen_c03(ctx: Ctx, n: int):
     jobs = []
     for i in range(n):
         cfg = sdl.gen_cfg(ctx.rng)
-        cfg.pop("interval", None)
+        if ctx.rng.random() < 0.5:
+            cfg.pop("interval", None)  # default snapshot cadence; otherwise the generated one (the stream must not depend on it)
         if cfg.get("sampler") == "custom_stateful":
             # a sampler that is its own iterator is consumed differently by torch's BatchSampler generator;
             # "the same arguments" is only meaningful for ordinary samplers
